@@ -185,4 +185,137 @@ example : (run Gen.C06.streamCaught countHooks 0 [.raise 0, .feed [5, 1, 7, 6, 0
     (run Gen.C06.streamCaught countHooks 0 [.feed [5, 1, 7, 6, 0], .turn]).processed :=
   congrArg (fun c => c.2.2.2) (tasks_isolated Gen.C06.streamCaught countHooks countHooks 0 0 [.raise 0, .feed [5, 1, 7, 6, 0], .turn])
 
+/-! ## the application tables -/
+
+/-- **tasks_tables_exactly_once (1).**  On an open connection, with no receive step marked as raising: the application
+    tables are those obtained by applying the black-box receive step to the packets delivered, ONCE each, in stream
+    order, starting from the initial tables - whatever the chunks and the loop turns; once the queue has drained that
+    is the receive steps of all complete packets of the stream. -/
+theorem tasks_tables_exactly_once (caught : List RdErr) (H : Hooks σ) (a : σ) (h : List Ev)
+    (hq : h.all Ev.quiet = true) (hr : h.all (fun e => !e.isRaise) = true) :
+    (run caught H a h).app = recvAll H a (run caught H a h).processed ∧
+    (run caught H a (h ++ [.turn])).app = recvAll H a (frames (fed h)).1 := by
+  have key : ∀ h : List Ev, h.all Ev.quiet = true → h.all (fun e => !e.isRaise) = true →
+      (run caught H a h).app = recvAll H a (run caught H a h).processed := fun h hq hr =>
+    (appInv_runFrom caught H a h (inv_init caught a) (open_init caught a) ⟨rfl, rfl⟩ hq hr).app
+  refine ⟨key h hq hr, ?_⟩
+  have := key (h ++ [.turn]) (by rw [List.all_append, hq]; rfl) (by rw [List.all_append, hr]; rfl)
+  rw [this, (tasks_delivered_when_drained caught H a h hq).2.2]
+
+example : (run Gen.C06.streamCaught countHooks 0 ([.feed [5, 1], .turn, .feed [7, 6, 0]] ++ [.turn])).app = 2 :=
+  (tasks_tables_exactly_once Gen.C06.streamCaught countHooks 0 [.feed [5, 1], .turn, .feed [7, 6, 0]] (by decide) (by decide)).2.trans
+    (by decide)
+
+/-- **tasks_last_pass_after_cleanup (3).**  What exactly happens to the packets completed in the same pass as the
+    orderly end of the stream (and to those still queued at that moment): `main_loop` runs `_clean_up` in that very
+    pass, BEFORE their tasks get their turn; on the next turn each of them is received exactly once, in order - against
+    the tables as `_clean_up` left them.  (A Data packet arriving together with the end of the stream is delivered to
+    `_receive`, but the Interest it answers has been cancelled by then.) -/
+theorem tasks_last_pass_after_cleanup (caught : List RdErr) (H : Hooks σ) (a : σ) (h : List Ev)
+    (hq : h.all Ev.quiet = true) (hr : h.all (fun e => !e.isRaise) = true) (c : Bytes) :
+    let before := run caught H a h
+    let fin := run caught H a (h ++ [.close c, .turn])
+    fin.processed = (frames (fed h ++ c)).1 ∧
+    fin.app = recvAll H (H.cleanup (recvAll H a before.processed))
+                ((frames (fed h ++ c)).1.drop before.processed.length) := by
+  obtain ⟨ho, hi, _⟩ := quiet_run caught H a h hq
+  have ha := appInv_runFrom caught H a h (inv_init caught a) (open_init caught a) ⟨rfl, rfl⟩ hq hr
+  have := close_turn_app caught H hi ho ha.bad c
+  intro before fin
+  have hfin : fin = step caught H (step caught H (run caught H a h) (.close c)) .turn := by
+    show run caught H a (h ++ [.close c, .turn]) = _
+    simp only [run, FaceTasks.runFrom_append, FaceTasks.runFrom]
+  rw [hfin]
+  refine ⟨this.1, ?_⟩
+  have e : (run caught H a h).app = recvAll H a (run caught H a h).processed := ha.app
+  rw [this.2, e]
+
+/-- `_clean_up` resets the counter to 100: one packet before the end, one in the last pass -/
+def cleanHooks : Hooks Nat := { recv := fun n _ => (n + 1, false), fail := fun n _ => n, cleanup := fun _ => 100 }
+
+example : (run Gen.C06.streamCaught cleanHooks 0 (([.feed [5, 1, 7]] ++ [.turn]) ++ [.close [6, 0, 9], .turn])).app = 101 := by
+  have h := (tasks_last_pass_after_cleanup Gen.C06.streamCaught cleanHooks 0 ([.feed [5, 1, 7]] ++ [.turn])
+    (by decide) (by decide) [6, 0, 9]).2
+  rw [(tasks_delivered_when_drained Gen.C06.streamCaught cleanHooks 0 [.feed [5, 1, 7]] (by decide)).2.2] at h
+  exact h.trans (by decide)
+
+/-! ## end to end with the reception model as the black box -/
+
+/-- the black box instantiated: the byte-level reception pipeline of this property (`receiveBytes`: the C07 decoder
+    models inside), an exception = the task ends with an unhandled error; `cleanup` = what `_clean_up` does to the
+    tables (a parameter: the two front-ends differ) -/
+def recvHooks (g : Recv.Guards) (Hs : Bytes → Bytes) (cleanup : Recv.State → Recv.State) : Hooks Recv.State where
+  recv st p := match RecvBytes.receiveBytes g Hs st p.1 p.2 with
+    | .ok r => (r.1, false)
+    | .error _ => (st, true)
+  fail st _ := st
+  cleanup := cleanup
+
+/-- **tasks_no_background_error.**  The statement's "no background task ends with an unhandled error", for the task
+    layer and the reception pipeline TOGETHER: for both front-ends, every byte stream cut into chunks in any way, any
+    loop turns, end of stream, transport errors and `shutdown()` at any instant, every state of the tables: no
+    per-packet task ever ends with an unhandled error (`errors` stays empty).  Composes `receive_bytes_total` (every
+    delivered byte string) with the task layer (every event history). -/
+theorem tasks_no_background_error (Hs : Bytes → Bytes) (cleanup : Recv.State → Recv.State) (st : Recv.State)
+    (h : List Ev) (hr : h.all (fun e => !e.isRaise) = true) :
+    (run Gen.C06.streamCaught (recvHooks Gen.C06.v2 Hs cleanup) st h).errors = [] ∧
+    (run Gen.C06.streamCaught (recvHooks Gen.C06.v1 Hs cleanup) st h).errors = [] := by
+  constructor
+  · refine errors_runFrom _ _ (fun a p => ?_) h _ hr rfl
+    obtain ⟨res, hres⟩ := (receive_bytes_total Hs a p.1 p.2).1
+    simp [recvHooks, hres]
+  · refine errors_runFrom _ _ (fun a p => ?_) h _ hr rfl
+    obtain ⟨res, hres⟩ := (receive_bytes_total Hs a p.1 p.2).2
+    simp [recvHooks, hres]
+
+example : [Ev.feed [100, 0], .turn, .close [5, 1], .turn].all (fun e => !e.isRaise) = true := by decide
+
+/-! ## the UDP face: one task per datagram -/
+
+open Ndn.FaceTasks.Udp (accepted dgrams) in
+/-- **udp_tasks_exactly_once_in_order (1, 2, 3).**  For EVERY history of the UDP face - datagrams, loop turns, a lost
+    connection, `shutdown()`, raising receive steps, in any order - and every `except` tuple: the packets delivered
+    followed by the packets still queued are exactly the datagrams whose Type number can be read, each once, in order
+    of arrival, each the WHOLE datagram with that Type (never a part of one, never two glued); nothing is withdrawn:
+    after a turn all of them have been delivered. -/
+theorem udp_tasks_exactly_once_in_order (caught : List PyErr) (H : Hooks σ) (a : σ) (h : List Udp.Ev) :
+    (Udp.run caught H a h).st.processed ++ (Udp.run caught H a h).st.queue = accepted (dgrams h) ∧
+    (Udp.run caught H a (h ++ [.turn])).st.processed = accepted (dgrams h) ∧
+    (∀ p ∈ accepted (dgrams h), ∃ d ∈ dgrams h, p.2 = d ∧ ∃ o, parseTlNum d 0 = .ok (p.1, o)) := by
+  have hs := Udp.runFrom_spawned caught H h (Udp.init a)
+  have h0 : (Udp.init a).st.spawned = [] := rfl
+  rw [h0, List.nil_append] at hs
+  refine ⟨hs, ?_, ?_⟩
+  · rw [Udp.run, Udp.runFrom_append]
+    exact (Udp.turn_processed caught H _).1.trans hs
+  · intro p hp
+    simp only [accepted, List.mem_filterMap] at hp
+    obtain ⟨d, hd, hm⟩ := hp
+    refine ⟨d, hd, ?_⟩
+    cases hq : parseTlNum d 0 with
+    | ok r => obtain ⟨t, o⟩ := r; rw [hq] at hm; cases hm; exact ⟨rfl, o, rfl⟩
+    | error e => rw [hq] at hm; cases hm
+
+example : (Udp.run Gen.C06.udpCaught countHooks 0 ([.dgram [5, 1, 7], .dgram [], .lost, .dgram [253, 0], .raise 0, .dgram [6, 0]] ++ [.turn])).st.processed
+    = [(5, [5, 1, 7]), (6, [6, 0])] :=
+  (udp_tasks_exactly_once_in_order _ _ _ _).2.1.trans (by decide)
+
+/-- **udp_tasks_no_callback_error.**  With the `except` tuple found in the source, for every history: no exception ever
+    leaves `datagram_received` (nothing reaches the loop's exception handler from the transport callback). -/
+theorem udp_tasks_no_callback_error (H : Hooks σ) (a : σ) (h : List Udp.Ev) :
+    (Udp.run Gen.C06.udpCaught H a h).cbErrors = [] :=
+  Udp.runFrom_cbErrors _ H udp_total h _
+
+/-- **udp_tasks_isolated (4).**  As for the stream faces: marking receive steps as raising, or exchanging the black
+    box, changes neither the queue nor the sequence of packets delivered nor how the face stands. -/
+theorem udp_tasks_isolated {τ : Type} (caught : List PyErr) (H : Hooks σ) (H' : Hooks τ) (a : σ) (a' : τ)
+    (h : List Udp.Ev) :
+    Udp.ucore (Udp.run caught H a h) = Udp.ucore (Udp.run caught H' a' (h.filter (fun e => !e.isRaise))) :=
+  Udp.ucore_runFrom caught H H' h _ _ rfl
+
+example : (Udp.run Gen.C06.udpCaught countHooks 0 [.raise 0, .dgram [5, 0], .turn, .dgram [6, 0], .turn]).st.processed =
+    (Udp.run Gen.C06.udpCaught countHooks 0 [.dgram [5, 0], .turn, .dgram [6, 0], .turn]).st.processed :=
+  congrArg (fun c => c.2.2.2.1) (udp_tasks_isolated Gen.C06.udpCaught countHooks countHooks 0 0
+    [.raise 0, .dgram [5, 0], .turn, .dgram [6, 0], .turn])
+
 end Ndn.C06
